@@ -29,6 +29,8 @@ declare -A EXPECT=(
   [debug_no_backslash_escape]="C20"
   [no_self_binding]="C06"
   [struct_hash_unsorted]="C05"
+  [destruct_copies_cells]="C13"
+  [zero_dividend_folded]="C08 C04"
 )
 : > selftest.log
 fail=0
